@@ -127,8 +127,8 @@ func Keys[K comparable, V any](m map[K]V, site uint32) []K {
 	for k := range m {
 		ks = append(ks, k)
 	}
-	if len(ks) < 2 {
-		return ks
+	if len(ks) < 2 || PassThrough {
+		return ks // pass-through: Go's own (random) order is as good as any
 	}
 	sort.Slice(ks, func(i, j int) bool {
 		a, as, an := keyOrd(ks[i])
@@ -138,9 +138,6 @@ func Keys[K comparable, V any](m map[K]V, site uint32) []K {
 		}
 		return as < bs
 	})
-	if PassThrough {
-		return ks
-	}
 	r := S.Tape.ChooseBias(StSched, len(ks), 2, 3)
 	if r != 0 {
 		n := len(ks)
